@@ -14,15 +14,36 @@ PARTIAL = ["the theorems are proved for the protocol-decision layer of Model/Inb
            "carried by the correspondence run only"]
 USES_GEN = True
 WANT = ("C03",)
+PROPS_FILES = ["C03", "C10pl"]
 
 
 def parts(tier, rng):
-    return B.make_parts(tier, rng, WANT)
+    res = B.make_parts(tier, rng, WANT)
+    # "the handler sees exactly the payload bytes that were sent": Payload::read / read_all over the bstream channel
+    # for every feed / poll schedule (engine payload, Model/Payload.v, theorems Props/C10pl.v)
+    from props import C10 as FR
+    import gen_payload as GP
+    for name, cases in GP.all_cases(rng, "quick" if tier == "quick" else "full"):
+        res.append(FR.PlPart("payload-" + name, "payload", cases, shards=16,
+                             rule="Payload::read()/read_all() under feed / eof / error / poll / take schedules: " + name))
+    return res
 
 
 def replay_parts(rp):
+    if rp.get("engine") == "payload":
+        from props import C10 as FR
+        return [FR.PlPart("replay", "payload", [rp["case"]], shards=1)]
     return B.replay_parts(rp, WANT)
 
 
-known_signature = B.known_signature
-clause_text = B.clause_text
+def known_signature(part, case, impl_obs, oracle):
+    if part.engine == "payload":
+        return None
+    return B.known_signature(part, case, impl_obs, oracle)
+
+
+def clause_text(part, oracle):
+    if part.engine == "payload":
+        from props import C10 as FR
+        return FR.clause_text(part, oracle)
+    return B.clause_text(part, oracle)
